@@ -277,6 +277,16 @@ impl TraceeCtl {
     }
 
     pub fn snapshot(&self) -> Vec<Tracee> {
+        // verification hook: the map's iteration order is unspecified; a harness may fix it
+        #[cfg(feature = "verif")]
+        if crate::verif::order::is_installed() {
+            let mut sorted: Vec<Tracee> = self.threads_state.values().cloned().collect();
+            sorted.sort_by_key(|t| t.pid);
+            if let Some(perm) = crate::verif::order::permutation(sorted.len()) {
+                return perm.into_iter().map(|i| sorted[i].clone()).collect();
+            }
+            return sorted;
+        }
         self.threads_state.values().cloned().collect()
     }
 
